@@ -95,6 +95,47 @@ class Shadow:
             return None
 
 
+# ---------------------------------------------------------------------- fault injection
+class FaultyDbm:
+    """wraps the dbm object under one shelve table: when armed, the next write raises OSError once
+    (disk full / quota / I/O error) before anything is written"""
+
+    def __init__(self, inner):
+        self.inner, self.armed, self.fired = inner, False, 0
+
+    def __setitem__(self, k, v):
+        if self.armed:
+            self.armed = False
+            self.fired += 1
+            raise OSError(28, 'No space left on device (injected by the harness)')
+        self.inner[k] = v
+
+    def __getitem__(self, k):
+        return self.inner[k]
+
+    def __delitem__(self, k):
+        del self.inner[k]
+
+    def __contains__(self, k):
+        return k in self.inner
+
+    def __iter__(self):
+        return iter(self.inner)
+
+    def __len__(self):
+        return len(self.inner)
+
+    def __getattr__(self, n):
+        return getattr(self.inner, n)
+
+
+def model_view(ops, obs):
+    """the history as the model sees it: the fault stream has no model operation -- an armed fault and
+    the registration it made fail (retried right after) are left out"""
+    keep = [(op, o) for op, o in zip(ops, obs) if op[0] != 'arm' and o[:2] != ['err', 'oserror']]
+    return [k[0] for k in keep], [k[1] for k in keep]
+
+
 # ---------------------------------------------------------------------- running one history
 class Runner:
     def __init__(self, store=None):
@@ -144,6 +185,8 @@ class Runner:
                 before = None
             o = self.step(op, sh, problems, blobs, mode)
             obs.append(o)
+            if op[0] != 'arm':
+                self.disarm()
             if op[0] == 'close' and before is not None:
                 snapshot = before
             if not monitor:
@@ -172,10 +215,25 @@ class Runner:
         return obs, problems
 
     # -------------------------------------------------------------- operations on the real code
+    def disarm(self):
+        dbi = self.S.DBI()
+        for t in (dbi.tables or ()):
+            if t is not None and isinstance(getattr(t, 'dict', None), FaultyDbm):
+                t.dict.armed = False
+
     def step(self, op, sh, problems, blobs, mode):
         S = self.S
         kind = op[0]
         try:
+            if kind == 'arm':
+                # the next write into the persisted table `op[1]` fails once
+                if not S.DBI().is_open:
+                    return ['err', 'closed']
+                shelf = getattr(S.DBI().tables, op[1])
+                if not isinstance(shelf.dict, FaultyDbm):
+                    shelf.dict = FaultyDbm(shelf.dict)
+                shelf.dict.armed = True
+                return ['ok']
             if kind == 'open':
                 S.open()
                 return ['ok']
@@ -271,6 +329,15 @@ class Runner:
         except (ValueError, AttributeError, TypeError):
             # dissect raises ValueError or TypeError, a missing version AttributeError: one class
             return ['err', 'value']
+        except OSError as e:
+            if 'injected by the harness' in str(e):
+                return ['err', 'oserror']
+            problems.append(('C08:operation-raises', f'{kind} raised {type(e).__name__}: {str(e)[:120]}'))
+            return ['err', 'raised']
+        except Exception as e:  # pylint: disable=broad-except
+            # an exception of the code under test is an observation and a finding, never a crash
+            problems.append(('C08:operation-raises', f'{kind} raised {type(e).__name__}: {str(e)[:120]}'))
+            return ['err', 'raised']
         raise ValueError(f'unknown op {op!r}')
 
     def shadow_register(self, sh, task, alg, av, sv, svv, vn, vv):
@@ -560,8 +627,12 @@ def gen_history(r, odd=False):
         x = r.random()
         if x < 0.46:
             payload += 1
-            ops.append(['store', r.choice(runs), r.choice(tg), r.choice(tk), r.choice(al), r.choice(ve),
-                        r.choice(sv), r.choice(ve), r.choice(va), r.choice(ve), payload])
+            st = ['store', r.choice(runs), r.choice(tg), r.choice(tk), r.choice(al), r.choice(ve),
+                  r.choice(sv), r.choice(ve), r.choice(va), r.choice(ve), payload]
+            if not odd and r.random() < 0.12:
+                # fault stream: the write of one (possibly new) name fails once, the job is retried
+                ops.extend([['arm', r.choice(['target', 'task', 'alg', 'state', 'value'])], list(st)])
+            ops.append(st)
         elif x < 0.52:
             ops.append(['register', r.choice(tk), r.choice(al), r.choice(ve), r.choice(sv), r.choice(ve),
                         r.random() < 0.9, r.choice(va), r.choice(ve)])
@@ -628,6 +699,13 @@ CORPUS = [
     [['open'], ['store', 1, 'X', 't', 'A', V1, '1', V1, '1', V1, 1], ['store', 1, 'X', 't', 'A', V1, 'sv', V1, 'v', V1, 2],
      ['remove', 1, 'X', 't', 'A2', '1', '1'], ['remove', 1, 'X', 't', 'A', '11', '1'], ['remove', 1, 'X', 't', 'A', '1', '11'],
      ['keys'], ['dump']],
+    # one failing table write while a new name is registered, then the retry: nothing may be left behind
+    [['open'], ['store', 1, 'X', 'alpha', 'A', V1, 'sv', V1, 'v', V1, 1], ['arm', 'task'],
+     ['store', 1, 'X', 'beta', 'A', V1, 'sv', V1, 'v', V1, 2], ['store', 1, 'X', 'beta', 'A', V1, 'sv', V1, 'v', V1, 2],
+     ['store', 1, 'X', 'gamma', 'A', V1, 'sv', V1, 'v', V1, 3], ['keys'], ['close'], ['open'], ['keys'], ['versions'],
+     ['arm', 'value'], ['store', 2, 'X', 'beta', 'A', V1, 'sv', V1, 'v2', V1, 4],
+     ['store', 2, 'X', 'beta', 'A', V1, 'sv', V1, 'v2', V1, 4], ['arm', 'alg'], ['add', 'X1'], ['next'],
+     ['store', 2, 'X', 'beta', 'A', V2, 'sv', V1, 'v2', V1, 5], ['close'], ['open'], ['keys'], ['dump']],
     # two-digit ids: "(5, 0, 0, 1" is a string prefix of "(5, 0, 0, 10, ...", "1:parent___" of nothing else
     [['open']] + [['store', 5, 'X', 't', 'B%d' % i, [1, 0, i], 'sv', [1, 0, i], 'v', V1, i] for i in range(12)]
     + [['reset', 5, 'X', 't', 'B1', ['sv']], ['reset', 5, 'X', 't', 'B10', ['sv']], ['trace', [['t', 'B1'], ['t', 'B10']]],
@@ -652,8 +730,9 @@ def check_history(rn, res, ops, tag, lines, pending, mode='direct'):
         problems = []  # names outside NameOK: model/implementation agreement only
     for sig, what in problems:
         res.hit(sig, what, {'mode': mode, 'ops': ops})
-    lines.append(to_line(ops, obs))
-    pending.append((tag, mode, ops, obs))
+    mops, mobs = model_view(ops, obs)
+    lines.append(to_line(mops, mobs))
+    pending.append((tag, mode, mops, mobs))
     kinds = [o[0] for o in ops]
     res.case((mode, json.dumps(ops)), nontrivial=kinds.count('store') >= 2 and any(k in kinds for k in ('remove', 'trace', 'reset')),
              sample={'mode': mode, 'ops': ops[:8], 'observed': obs[:8]} if tag == 'random' else None)
